@@ -522,7 +522,29 @@ def expected_size(ctx):
                 if fins and not any(fb in g.reach_from([bad_edge]) for fb in fins):
                     good = s
     key = 'LZMAWriter::finish:declared-size-equals-written'
+    bypass = None
     if good is not None:
+        # the comparison is evaluated on every path that has a declared size: from the Some arm of the test of the
+        # declared-size field no finishing call is reachable around the comparison (a `cond && exp != written` skips it)
+        for s in g.reachable:
+            t = g.blocks[s]['term']
+            if t['k'] != 'switch':
+                continue
+            dl = op_local(t['discr'])
+            dd = g.whole_defs(dl) if dl is not None else []
+            if len(dd) == 1 and dd[0][2] == 'assign' and dd[0][3]['rv']['r'] == 'discr':
+                pl = dd[0][3]['rv']['p']
+                fp = [x.get('n') for x in pl['p'] if isinstance(x, dict) and 'f' in x]
+                if pl['l'] == 1 and fld in fp:
+                    arms = {int(a[0]): a[1] for a in t['arms']}
+                    some = arms.get(1, t['otherwise'])
+                    around = g.reach_from([some], stop={good})
+                    if any(fb in around for fb in fins):
+                        bypass = s
+    if good is not None and bypass is not None:
+        ctx.violation(key, g.loc(bypass), 'with a declared size the comparison written == declared can be skipped (another condition short-circuits it): '
+                      'finish() then completes a stream whose header promises a different number of bytes')
+    elif good is not None:
         ctx.ok(key, g.loc(good), 'finish refuses to complete when written != declared (checked before set_finishing)')
     else:
         ctx.violation(key, g.loc(0), 'finish does not compare the declared size with the bytes written before finishing')
